@@ -15,6 +15,9 @@ CHECKS = {
  "C07": ("exploration", "E1", "bounded-exhaustive enumeration of (shape, target/axes) requests incl. invalid ones, plus depth-2 operator-instance histories",
          "Every input shape of rank 0..4 (thorough 0..5) x every Reshape target over {-1,0,1,2,3,4,6}^(1..4), every Flatten axis in [-r-1,r+1], every Squeeze/Unsqueeze axes sequence (negative, unsorted, duplicate, out of range), Shape; valid requests must give the ONNX shape with identical element order, invalid ones must give an error (never a tensor, never a panic). Each case is additionally replayed on an operator instance that already served another request (history of depth 2).",
          E1NOTE, "DESIGN.md §3 C07"),
+ "C08": ("exploration", "E1", "bounded-exhaustive enumeration of permutations / axes / (start,end,step) triples / index assignments / target shapes on the real operators vs index-formula reference",
+         "Transpose over all permutations (and invalid perms), Concat over 1..3 inputs x every axis x independent extents, Slice over every (start,end,step) in [-dim-2,dim+2] U {INT_MIN,INT_MAX} per axis with all spellings of axes/steps, Gather over every axis and ALL in-range index assignments for index ranks 0..2, Expand over every (input,target) shape pair; result must equal the ONNX index formula bit for bit, or be refused where the statement allows; invalid requests must be refused; never a panic. Plus depth-2 operator-instance histories.",
+         E1NOTE, "DESIGN.md §3 C08"),
 }
 NA_REASON = "check not built yet in this session (see DESIGN.md §7 order of construction); decidable by bounded exhaustive exploration, to be claimed once its explorer exists"
 def main():
